@@ -117,7 +117,7 @@ impl Property for C09 {
         "C09"
     }
     fn rule(&self) -> String {
-        "SEM programs (root + headers, plus seeded semantic faults in every file so that included files carry diagnostics) written to a scratch directory with per-file line structure: 0..5 extra leading lines (blank / comment / non-ASCII comment / multi-line block comment), LF or CRLF, non-ASCII text inside strings. Real server: didOpen(root), then definition and references at every identifier of the root, documentSymbol, foldingRange, documentLink, inlayHint(whole file), and the published diagnostics of every file; then a didChange of the root to the same bytes with a different line structure (line breaks after ';' and '}' turned into spaces: byte offsets stay, lines and columns move), after which the diagnostics the client holds for every file and the documentSymbol answer are compared again. Oracle: the ide-level result for the same files (separate AnalysisHost) converted with the reference position mapper against the text of the file each location names; URIs and ranges must match exactly (reference lists and diagnostics as multisets). distinct = (seed, n); non-trivial = a definition or reference in another file whose line differs from the same offset's line in the requesting file, or a root diagnostic that had to be re-published with moved lines after the relayout".into()
+        "SEM programs (root + headers, plus seeded semantic faults in every file so that included files carry diagnostics) written to a scratch directory with per-file line structure: 0..5 extra leading lines (blank / comment / non-ASCII comment / multi-line block comment), LF or CRLF, non-ASCII text inside strings. Real server: didOpen(root), then definition and references at every identifier of the root, documentSymbol, foldingRange, documentLink, inlayHint(whole file), and the published diagnostics of every file; then a didChange of the root to the same bytes with a different line structure (line breaks after ';' and '}' turned into spaces: byte offsets stay, lines and columns move), after which the diagnostics the client holds for every file and the documentSymbol answer are compared again; then the first header is opened too (it is the root of its own workspace: diagnostics and outline compared), the former root is touched again, and definition/references at up to 80 identifiers, documentSymbol and inlayHint of the now open *included* document are compared. Oracle: the ide-level result for the same files (separate AnalysisHost) converted with the reference position mapper against the text of the file each location names; URIs and ranges must match exactly (reference lists and diagnostics as multisets). distinct = (seed, n); non-trivial = a definition or reference in another file whose line differs from the same offset's line in the requesting file, or a root diagnostic that had to be re-published with moved lines after the relayout".into()
     }
     fn assumptions(&self) -> Vec<String> {
         vec!["the ide-level analysis of the same files is taken as 'the span the analysis computed' (its own correctness is C05/C17's business); 'idle' = all spawned tasks ended (verif hook counters)".into()]
@@ -183,6 +183,7 @@ impl Property for C09 {
         let t = Duration::from_secs(30);
         let fail = |oracle: &str, detail: String| Verdict::Fail(Failure::new(oracle, oracle, format!("{detail}\nfiles: {:?}", sess.files.iter().map(|f| (&f.0, f.1.chars().take(200).collect::<String>())).collect::<Vec<_>>())));
         let mut nontrivial = false;
+        let mut labels: Vec<&'static str> = Vec::new();
 
         // ---- diagnostics (a mismatch is believed only when it is still there after the server has been
         // observed a second time: pause, idle, second barrier)
@@ -283,6 +284,7 @@ impl Property for C09 {
         // afterwards must denote the spans of the new analysis in the new text.
         let new_root = relayout(&root_text);
         if new_root != root_text {
+            labels.push("relayout revision compared");
             let mut files2 = sess.files.clone();
             files2[0].1 = new_root.clone();
             let ws2 = Workspace::new(&files2, &files2[0].0);
@@ -334,7 +336,119 @@ impl Property for C09 {
                 return done(c, fail("C09.document-symbol-after-relayout", format!("server {:?}, expected {:?}", got, want)));
             }
         }
-        done(c, Verdict::pass(nontrivial))
+        // ---- third part: an included document is opened as well. While it is the last touched document
+        // it is the root of its own workspace; after the former root is touched again it is an open
+        // *included* document, and requests about it are answered from the root's workspace.
+        if sess.files.len() >= 2 {
+            let mut cur = sess.files.clone();
+            let mut sent = 1u64;
+            if new_root != root_text {
+                cur[0].1 = new_root.clone();
+                sent = 2;
+            }
+            let (h_path, h_text) = cur[1].clone();
+            let h_uri = format!("file://{h_path}");
+            let h_rp = RefPos::new(&h_text);
+            let text_at = |cur: &Vec<(String, String)>, path: &str| cur.iter().find(|f| f.0 == path).map(|f| f.1.clone()).unwrap_or_default();
+            let diag_mismatch = |c: &Client, w: &Workspace, cur: &Vec<(String, String)>| -> Option<String> {
+                let published = c.last_diagnostics();
+                for (fid, ds) in w.analysis().diagnostics() {
+                    let path = w.fs.path_of(fid)?;
+                    let tx = text_at(cur, &path);
+                    let rp = RefPos::new(&tx);
+                    let want = sorted(ds.iter().map(|d| json!({"range": lsp_range(&rp, r2(d.location.range).0, r2(d.location.range).1), "message": d.message})).collect());
+                    let got = published.get(&format!("file://{path}")).map(|x| x.1.clone());
+                    if got.as_ref() != Some(&want) {
+                        return Some(format!("diagnostics of {path}: {got:?}, expected {want:?}"));
+                    }
+                }
+                None
+            };
+            c.did_open(&h_uri, &h_text);
+            sent += 1;
+            if !sched.wait_idle(sent, Duration::from_secs(60)) || !c.barrier(&h_uri) {
+                return done(c, Verdict::Skip("not-idle"));
+            }
+            let ws_h = Workspace::new(&cur, &h_path);
+            if diag_mismatch(&c, &ws_h, &cur).is_some() {
+                std::thread::sleep(Duration::from_millis(150));
+                if !sched.wait_idle(sent, Duration::from_secs(60)) || !c.barrier(&h_uri) {
+                    return done(c, Verdict::Skip("not-idle"));
+                }
+                if let Some(d) = diag_mismatch(&c, &ws_h, &cur) {
+                    return done(c, fail("C09.diagnostics-included-opened", format!("after opening the included document {h_path}: {d}")));
+                }
+            }
+            let td_h = json!({"textDocument": {"uri": h_uri}});
+            let Ok(r) = c.request("textDocument/documentSymbol", td_h.clone(), t) else { return done(c, Verdict::Skip("no-response")) };
+            let want = ws_h.analysis().document_symbol(ws_h.root).map(|v| v.iter().map(|s| symbol_json(s, &h_rp)).collect::<Vec<_>>());
+            let got = r["result"].as_array().map(|v| v.iter().map(strip_symbol).collect::<Vec<_>>());
+            if got != want {
+                return done(c, fail("C09.document-symbol-included-opened", format!("server {:?}, expected {:?}", got, want)));
+            }
+            // the former root is touched again (same text): the header is now an open included document
+            let cur_root = cur[0].1.clone();
+            c.did_change(&root_uri, 7, &cur_root);
+            sent += 1;
+            if !sched.wait_idle(sent, Duration::from_secs(60)) || !c.barrier(&root_uri) {
+                return done(c, Verdict::Skip("not-idle"));
+            }
+            let ws_r = Workspace::new(&cur, &cur[0].0);
+            let a_r = ws_r.analysis();
+            if let Some(hid) = ws_r.fs.id_of(&h_path).filter(|id| ws_r.workspace_files(&a_r).contains(id)) {
+                labels.push("open included document queried");
+                let uri_of = |fid: FileId| format!("file://{}", ws_r.fs.path_of(fid).unwrap_or_default());
+                for &(s0, e0) in id_tokens_by_parse(&h_text).iter().take(80) {
+                    let at = (s0 + e0) / 2;
+                    let params = json!({"textDocument": {"uri": h_uri}, "position": lsp_pos(&h_rp, at)});
+                    let want_def = a_r.goto_definition(pos(hid, at)).map(|d| {
+                        let tx = text_at(&cur, &ws_r.fs.path_of(d.file).unwrap_or_default());
+                        let rp = RefPos::new(&tx);
+                        if d.file != hid {
+                            nontrivial = true;
+                        }
+                        json!({"uri": uri_of(d.file), "range": lsp_range(&rp, r2(d.range).0, r2(d.range).1)})
+                    });
+                    let Ok(r) = c.request("textDocument/definition", params.clone(), t) else { return done(c, Verdict::Skip("no-response")) };
+                    let got = if r["result"].is_null() { None } else { Some(r["result"].clone()) };
+                    if r.get("error").is_some() || got != want_def {
+                        return done(c, fail("C09.definition-in-included", format!("definition at offset {at} ({:?}) of the open included document {h_path}: server {}, expected {want_def:?}", &h_text[s0..e0], r)));
+                    }
+                    let want_refs = a_r.references(pos(hid, at)).map(|v| {
+                        sorted(
+                            v.iter()
+                                .map(|x| {
+                                    let tx = text_at(&cur, &ws_r.fs.path_of(x.file).unwrap_or_default());
+                                    let rp = RefPos::new(&tx);
+                                    json!({"uri": uri_of(x.file), "range": lsp_range(&rp, r2(x.range).0, r2(x.range).1)})
+                                })
+                                .collect(),
+                        )
+                    });
+                    let mut rp2 = params.clone();
+                    rp2["context"] = json!({"includeDeclaration": true});
+                    let Ok(r) = c.request("textDocument/references", rp2, t) else { return done(c, Verdict::Skip("no-response")) };
+                    let got = r["result"].as_array().map(|v| sorted(v.clone()));
+                    if r.get("error").is_some() || got != want_refs {
+                        return done(c, fail("C09.references-in-included", format!("references at offset {at} ({:?}) of the open included document {h_path}: server {}, expected {want_refs:?}", &h_text[s0..e0], r)));
+                    }
+                }
+                let Ok(r) = c.request("textDocument/documentSymbol", td_h.clone(), t) else { return done(c, Verdict::Skip("no-response")) };
+                let want = a_r.document_symbol(hid).map(|v| v.iter().map(|s| symbol_json(s, &h_rp)).collect::<Vec<_>>());
+                let got = r["result"].as_array().map(|v| v.iter().map(strip_symbol).collect::<Vec<_>>());
+                if got != want {
+                    return done(c, fail("C09.document-symbol-in-included", format!("server {:?}, expected {:?}", got, want)));
+                }
+                let whole = json!({"textDocument": {"uri": h_uri}, "range": lsp_range(&h_rp, 0, h_text.len())});
+                let Ok(r) = c.request("textDocument/inlayHint", whole, t) else { return done(c, Verdict::Skip("no-response")) };
+                let want = a_r.inlay_hint(frange(hid, 0, h_text.len())).map(|v| sorted(v.iter().map(|h| json!({"position": lsp_pos(&h_rp, u32::from(h.position) as usize), "label": h.label})).collect()));
+                let got = r["result"].as_array().map(|v| sorted(v.iter().map(|h| json!({"position": h["position"], "label": h["label"]})).collect()));
+                if got != want && !h_text.is_empty() {
+                    return done(c, fail("C09.inlay-hint-in-included", format!("server {:?}, expected {:?}", got, want)));
+                }
+            }
+        }
+        done(c, Verdict::Pass { nontrivial, labels })
     }
     fn shrink_keep(&self) -> &'static [&'static str] {
         &["kind", "seed", "opts"]
